@@ -32,4 +32,8 @@ PROPS = {
                 bound={}, budget={"quick": 120, "thorough": 900},
                 assumptions=E1_ASSUME + ["fakenats mirrors nats.go v1.33.1 dispatch/Drain/Flush/Barrier semantics (engine/vsched/fakenats, header comment)"],
                 explanation="real fNatsServer over fakenats: workers 1-2 x queue length 0-2 x burst 2-3 x Stop at every position of the request stream (+ a racing second publisher, + a request after Stop returned); all schedules of publisher, dispatcher, drainer, workers, Serve and Stop to the bound"),
+    "C07": dict(run=e1.run, replay=e1.replay, harnesses=["pubsub"], level="model_checking",
+                bound={}, budget={"quick": 120, "thorough": 900},
+                assumptions=E1_ASSUME + ["fakenats / fakestomp mirror nats.go v1.33.1 and go-stomp v2.1.4 subscription semantics (see the packages' header comments)"],
+                explanation="real NATS and STOMP subscriber/publisher transports over broker models: every length-3 sequence over {valid, foreign topic, 0-byte, 3-byte, bad header block, bad version} containing a valid message, Unsubscribe at every position and racing, worker counts 1-2; all schedules to the bound"),
 }
